@@ -168,3 +168,60 @@ def valid_recover_program(draw, max_steps=6):
         else:
             steps.append((name, True))
     return steps
+
+
+# ------------------------------------------------------------------------------------------ HTTP beacon configurations (C07, C13, C14)
+RESERVED_HEADERS = {b"host", b"user-agent", b"content-length", b"connection", b"accept", b"accept-encoding", b"transfer-encoding", b"content-type", b"expect", b"te", b"upgrade"}
+
+
+def _rename_reserved(steps):
+    out = []
+    for name, arg in steps:
+        if name == "HEADER" and arg.lower() in RESERVED_HEADERS:
+            arg = b"X-" + arg
+        elif name == "_HEADER":
+            k, sep, v = arg.partition(b": ")
+            if k.lower() in RESERVED_HEADERS:
+                arg = b"X-" + k + sep + v
+        out.append((name, arg))
+    return out
+
+
+@st.composite
+def http_beacon_config(draw, printable=True):
+    """A well-formed HTTP beacon configuration (as a plain dict of reference-level values)."""
+    seg = st.text(alphabet=token_chars, min_size=1, max_size=6)
+    n_uris = draw(st.integers(1, 3))
+    uris = []
+    tries = 0
+    while len(uris) < n_uris + 1 and tries < 50:
+        tries += 1
+        u = "/" + draw(seg) + draw(st.sampled_from(["", "", ".php", ".js", "/x"]))
+        if all(not u.startswith(o) and not o.startswith(u) for o in uris):
+            uris.append(u)
+    if len(uris) < 2:
+        uris = ["/aa.php", "/bb"]
+    submit_uri, get_uris = uris[0], uris[1:]
+    verb_get = draw(st.sampled_from(["GET", "GET", "POST", "PUT", "XGET"]))
+    verb_post = draw(st.sampled_from(["POST", "POST", "GET", "PUT", "XPOST"]))
+    get_steps = _rename_reserved(draw(valid_client_program(kinds=("metadata",), printable=printable)))
+    post_steps = _rename_reserved(draw(valid_client_program(kinds=draw(st.sampled_from([("id", "output"), ("output", "id")])), printable=printable)))
+    recover_steps = draw(valid_recover_program())
+    domains = draw(st.lists(st.sampled_from(["127.0.0.1", "localhost", "c2.example.com"]), min_size=1, max_size=2, unique=True))
+    pairs = [(domains[i % len(domains)], u) for i, u in enumerate(get_uris)]
+    return {
+        "get_steps": get_steps,
+        "post_steps": post_steps,
+        "recover_steps": recover_steps,
+        "get_uris": get_uris,
+        "submit_uri": submit_uri,
+        "verb_get": verb_get,
+        "verb_post": verb_post,
+        "pairs": pairs,
+        "port": draw(st.sampled_from([80, 443, 8080])),
+        "proto": draw(st.sampled_from([0, 8])),
+        "sleeptime": draw(st.sampled_from([0, 1000, 60000])),
+        "jitter": draw(st.integers(0, 50)),
+        "useragent": draw(st.sampled_from(["Mozilla/5.0 (Windows NT 10.0; Win64; x64)", "curl/8.0", "Mozilla/4.0 (compatible; MSIE 8.0)"])),
+        "key": "rsa_1024_a",
+    }
